@@ -132,8 +132,61 @@ def kill_points(raw, stmts=False):
 class C20(SchedProp):
     id = 'C20'
     props_modules = ['CylcModel.Props.C20']
-    theorems = ['CylcModel.C20.dead_commit']
-    statement_note = 'see below'
+    theorems = [
+        'CylcModel.C20.commit_all_or_nothing',
+        'CylcModel.C20.kill_at_boundary',
+        'CylcModel.C20.dead_commits_nothing',
+        'CylcModel.C20.crash_reads_only_database',
+        'CylcModel.C20.between_ops_live',
+        'CylcModel.C20.restart_pool_from_table',
+        'CylcModel.C20.restart_submit_num',
+        'CylcModel.C20.no_dup_launch_partial',
+        'CylcModel.C20.stranded_is_lost',
+        'CylcModel.C20.finished_not_respawned',
+        'CylcModel.C20.no_loss_counterexample',
+        'CylcModel.C20.lost_before_first_loop',
+        'CylcModel.C20.no_rerun_counterexample',
+        'CylcModel.C20.no_dup_launch_counterexample',
+        'CylcModel.C20.no_loss_repaired_bounded',
+        'CylcModel.C20.loss_found_bounded',
+        'CylcModel.C20.lost_child_live',
+        'CylcModel.C20.lost_at_start_live',
+        'CylcModel.Sched3Crash.live_run',
+        'CylcModel.Sched3Crash.dead_dstep',
+        'CylcModel.Sched3Crash.dstep_mainLoop',
+        'CylcModel.Sched3Crash.dstep_processMessage',
+    ]
+    statement_note = (
+        'partial. Model: Sched3Crash = Sched2 + the private database AS COMMITTED kept apart from process memory (task_states / '
+        'task_outputs rows with the queue of INSERTs / UPDATEs, the task_pool + task_prerequisites + try-timer snapshot of '
+        'put_task_pool, abs_outputs, tasks_to_hold, the holdcp / stopcp / is_paused / stop_task parameters), commit boundaries '
+        'exactly where the code calls process_queued_ops, spawn_task reading only committed rows, kill points (between ops; at '
+        'the k-th commit boundary of a main loop, or inside that transaction) and restart from the committed database alone; it '
+        'agrees with the real Scheduler (killed by fault injection) on every generated run, committed tables included. PROVED for '
+        'all instance graphs and op lists: a commit is all-or-nothing and a kill at a boundary / inside the transaction leaves '
+        'the database as at the boundary (kill_at_boundary; statement-level kill points reduce to commit boundaries, sqlite '
+        'atomicity assumed, C21); a dead process commits nothing (dead_commits_nothing, through a one-lemma-per-primitive frame '
+        'DStep of how every primitive touches the database part); a restart reads nothing but the committed database '
+        '(crash_reads_only_database); between ops the scheduler is alive and no task-pool write is pending (between_ops_live, '
+        'inductive over all runs); the restored pool is the pool table JOIN task_states, with status / submit number as recorded, '
+        'preparing -> waiting under the previous number (restart_pool_from_table, restart_submit_num). THE THREE CLAIMS OF THE '
+        'PROPERTY TEXT, stated over the model closed with a deterministic job environment (every job succeeds, reports before '
+        'the next main loop, restart poll; def no_loss_full / no_rerun_full / no_dup_launch_full per value of the behaviour '
+        'flags): no_loss and no_rerun are FALSE ON THE CODE AS FOUND (no_loss_counterexample, lost_before_first_loop, '
+        'no_rerun_counterexample, kernel-checked and replayed on the real scheduler: finding stale-pool-table with repair '
+        'C20-fix-1.diff); the mechanism is proved in general (stranded_is_lost: a committed row without outputs that the pool '
+        'table does not list is never run after a restart; finished_not_respawned). WITH THE REPAIR (flags up, probed from the '
+        'live code into Generated/CrashFlags.lean; lost_child_live / lost_at_start_live tie the witnesses to the live flags) '
+        'no_loss and no_rerun are proved only BOUNDED: for two witness workflows and every single kill point of their runs '
+        '(no_loss_repaired_bounded); the general statement for the repaired code is NOT proved (it needs the invariant that at '
+        'every commit every pooled task has a row equal to its memory state, over ~35 primitives) - on real runs it is decided by '
+        'the differential judge (every kill point of generated base runs in the thorough tier). no_dup_launch is FALSE BY DESIGN '
+        'before and after the repair (no_dup_launch_counterexample; finding relaunch-same-submit-number); what holds is '
+        'no_dup_launch_partial (unless the pool table lists the task as preparing the restart continues from the recorded '
+        'submit number) - stated for the restart step, not lifted to whole runs (no launch-log invariant). "To the same final '
+        'outputs" inherits the C19 finding outputs-not-restored. NOT MODELLED: several flows, broadcasts, xtriggers, task_jobs '
+        'rows (platforms), event timers; suicide prerequisites are not stored in the database (the model resets them on restart; '
+        'the generator only produces single-atom suicide triggers, so this is not exercised by the correspondence).')
     technique = ('Lean scheduler model with the committed database kept apart from process memory + kill-point ops; '
                  'trace correspondence with fault injection at every commit boundary / inside transactions of the real '
                  'Scheduler; differential (killed vs uninterrupted) and trace judges on the real runs')
@@ -153,10 +206,19 @@ class C20(SchedProp):
         '(platform / job times), late flags, timeout timers, workflow_flows beyond flow 1, template variables',
         'the job-submit subprocess: a launch is the hand-over of a prepared task to the (stub) job runner',
     ]
-    rule = 'see below'
+    rule = ('(1) random kill plans: generated integer-cycling workflows (2-6 tasks, 1-3 recurrences, AND/OR triggers, offsets, '
+            'absolute and suicide triggers, optional / custom outputs, retries, runahead P0-P3) run through the real Scheduler with '
+            '1-4 kill points each (between ops, or at commit boundary 0-3 of a main loop, before the transaction or after 0-5 of its '
+            'statements / right before COMMIT), complete and failing / noisy job outcomes, with and without hold / stop / pause '
+            'commands and clean restarts; the noise-free ones are paired with their uninterrupted run. (2) base workflows whose '
+            'EVERY kill point is run separately (thorough: every main loop x {between ops, every commit boundary}, for the first '
+            'bases also every statement position of every transaction; quick: 8 points spread over each run), each compared with '
+            'the uninterrupted run by the differential judge. Job outcomes are a function of (seed, point, name, submit number); '
+            'jobs launched before a kill keep reporting, messages queued at the kill are lost, the restart poll is answered from '
+            'the job table. Non-trivial = distinct (kind, ending, launch-count class, number of kills) class per distinct case')
     kinds = ('crash', 'crashany', 'cmdcrash', 'cmdcrashany')
     gen_opts: dict = {}
-    pair_opts = {'noise': 0.0}
+    pair_opts = {'noise': 0.0, 'p_suicide': 0.0}
     # (random kill-plan cases, base workflows, kill points per base workflow [None = all], bases with statement-level kill points)
     sizes = {'quick': (16, 4, 8, 0), 'thorough': (240, 10, None, 3)}
 
@@ -204,13 +266,17 @@ class C20(SchedProp):
             'end CylcModel.CrashFlags\n')}
 
     def corpus(self):
-        return [_case('c20-' + k, v[0], v[1]) for k, v in _CORPUS.items()]
+        import core
+        more = [w for e in core.known_findings(self.id) for w in e.get('witnesses_more', [])]
+        return [_case('c20-' + k, v[0], v[1]) for k, v in _CORPUS.items()] + more
 
     # -- generation ------------------------------------------------------------------------------------------------
     def gen(self, tier, rng):
         n_rand, n_base, n_var, n_stmt = self.sizes.get(tier, self.sizes['thorough'])
-        if tier == 'search':
-            n_rand, n_base, n_var, n_stmt = 400, 16, None, 2
+        if tier == 'search' or getattr(self, '_generated', False):
+            # the failing-input search after a broken tie (a second batch in the same check): a medium batch
+            n_rand, n_base, n_var, n_stmt = 80, 6, 24, 0
+        self._generated = True
         base = rng.randrange(1 << 30)
         # (1) random kill plans (1-4 kill points per run), all four kinds; the complete / noise-free ones are paired
         # with their uninterrupted run
@@ -218,7 +284,9 @@ class C20(SchedProp):
             kind = self.kinds[k % len(self.kinds)]
             c = sgen.gen_case(base + k, kind, self.gen_opts)
             c['policy']['outcome_by_key'] = True
-            if kind == 'crash' or (kind == 'crashany' and c['policy'].get('p_noise', 0.0) == 0.0):
+            # (suicide triggers race with the jobs they remove: outcomes depend on the interleaving, which a kill changes)
+            if '=> !' not in c['flow'] and (
+                    kind == 'crash' or (kind == 'crashany' and c['policy'].get('p_noise', 0.0) == 0.0)):
                 b = copy.deepcopy(c)
                 b['id'] = f'ubase{base + k}'
                 b['policy'].pop('crash_plan', None)
